@@ -119,10 +119,34 @@ def _units(x):
     return int(min(BIG, round(float(x) / UNIT)))
 
 
-def _transcribe(eng, x, cached):
+def _transcribe(eng, x, cached, keep=None):
+    """keep: a list that receives the objects exactly as transcribe_batch handed them back (no copy) - what a caller such as
+    process_lines holds on to while the engine goes on with the next batch"""
     with contextlib.redirect_stdout(io.StringIO()), torch.no_grad():
         outs, logits = eng.transcribe_batch(x.copy(), is_cached=cached)
+    if keep is not None:
+        keep.append((outs, logits))
     return [o.tolist() for o in outs], logits.detach().clone()
+
+
+# image kinds of a batch (4th element of a history entry; absent = 0)
+#   0 ordinary crops, uint8 values 0..255
+#   1 every line is an (almost) black crop: values 0 / 1, not all zero (dark binarised scan, a few noise pixels)
+#   2 mixed: even lines dark as in 1, odd lines ordinary
+#   3 flat lines: every line has one constant value out of 0 / 1 / 255 (blank padding, saturated page)
+def images(rng, n, e, kind):
+    x = rng.randint(0, 256, (n, 3, H, 4 * e)).astype(np.uint8)       # kind 0: the same stream as before kinds existed
+    if kind in (1, 2):
+        dark = rng.randint(0, 2, (n, 3, H, 4 * e)).astype(np.uint8)
+        dark[:, 0, 0, 0] = 1
+        for i in range(n):
+            if kind == 1 or i % 2 == 0:
+                x[i] = dark[i]
+    elif kind == 3:
+        vals = rng.randint(0, 3, n)
+        for i in range(n):
+            x[i] = (0, 1, 255)[int(vals[i])]
+    return x
 
 
 def _margin(logits):
@@ -147,7 +171,7 @@ def _alarm(signum, frame):
 
 
 def run_history(case):
-    """case: {"shape": name, "bias": idx, "seed": int, "batches": [[n, e, cached], ...]}"""
+    """case: {"shape": name, "bias": idx, "seed": int, "batches": [[n, e, cached] or [n, e, cached, kind], ...]}"""
     base = pristine(case["shape"], case["bias"], case["seed"])
     net = copy.deepcopy(base)
     sink = []
@@ -155,17 +179,22 @@ def run_history(case):
     eng = engine_for(net)
     rng = np.random.RandomState(case["seed"] * 7919 + 13)
     tr = {"batches": []}
+    held = []        # per completed call: what the caller was handed (kept, not copied) and the references computed at once
     old = signal.signal(signal.SIGALRM, _alarm)
     try:
-        for (n, e, cached) in case["batches"]:
-            x = rng.randint(0, 256, (n, 3, H, 4 * e)).astype(np.uint8)
-            b = {"n": n, "e": e, "cached": int(bool(cached)), "outcome": "ok", "S": 0, "syms": [], "res": [], "obs": [],
-                 "layers_agree": 1, "d_unc": BIG, "d_tf": BIG, "d_alone": BIG, "margin": 0, "eq_unc": 0, "eq_alone": 0}
+        for entry in case["batches"]:
+            n, e, cached = entry[:3]
+            kind = entry[3] if len(entry) > 3 else 0
+            x = images(rng, n, e, kind)
+            b = {"n": n, "e": e, "cached": int(bool(cached)), "kind": kind, "outcome": "ok", "S": 0, "syms": [], "res": [], "obs": [],
+                 "layers_agree": 1, "d_unc": BIG, "d_tf": BIG, "d_alone": BIG, "margin": 0, "eq_unc": 0, "eq_alone": 0,
+                 "d_late": BIG, "eq_late": 0}
             tr["batches"].append(b)
             del sink[:]
             signal.alarm(CASE_TIMEOUT)
             try:
-                o1, l1 = _transcribe(eng, x, bool(cached))
+                keep = []
+                o1, l1 = _transcribe(eng, x, bool(cached), keep)
                 steps = l1.shape[1]
                 arg = torch.argmax(l1, dim=-1)
                 b["S"] = int(steps)
@@ -197,6 +226,7 @@ def run_history(case):
                 b["d_alone"] = _units(d_alone)
                 b["eq_alone"] = int(eq_alone)
                 b["margin"] = _units(min(margins))
+                held.append((b, keep[0], o1, l1, l2, full.permute(1, 0, 2)))
             except CaseTimeout:
                 b["outcome"] = "timeout"
                 break
@@ -208,4 +238,13 @@ def run_history(case):
     finally:
         signal.alarm(0)
         signal.signal(signal.SIGALRM, old)
+    # a result handed back to the caller stays that result: only now, after the whole session has been decoded on this engine,
+    # the objects returned by each call are compared with the recomputation and the teacher-forced pass obtained right after it
+    for b, (outs, logits), o1, l1, l2, full in held:
+        try:
+            with torch.no_grad():
+                b["d_late"] = _units(max(_maxdiff(logits, l2), _maxdiff(logits, full)))
+            b["eq_late"] = int([o.tolist() for o in outs] == o1 and tuple(logits.shape) == tuple(l1.shape))
+        except Exception:              # the kept object is no longer usable: recorded as a difference
+            b["d_late"], b["eq_late"] = BIG, 0
     return tr
